@@ -42,7 +42,7 @@ def convoluteCk (g f : Expr) (c : Nat) (st : SStack) : Except Err (Expr × Nat) 
     let (fps', fb', c2) ← makeArgsUniqueCk fps fb c1 st
     let x := argName c2
     if !(fv (.lam gps' gb')).contains x && !(fv (.lam fps' fb')).contains x && !(stackKeys st).contains x
-        && (stackVals st).all (fun a => !(fv a).contains x) then
+        && (stackVals st).all (fun a => !(fv a).contains x) && !(fv g).contains x && !(fv f).contains x then
       .ok (.lam [x] (.call (.lam gps' gb') [.call (.lam fps' fb') [.name x] [] []] [] []), c2 + 1)
     else .error (sideErr "fresh composition variable")
   | _, _ => .error (.internal "Exception")
@@ -220,8 +220,8 @@ def callSelectManyCk : Nat → SStack → Nat → List Expr → List String → 
           (match pargs with
            | [seq, f] =>
              (match f with
-              | .lam (p :: _) fb =>
-                if !(fv selection).contains p then
+              | .lam (p :: prest) fb =>
+                if !(fv selection).contains p && prest.isEmpty then
                   simpCk fuel st c1 (fcall "SelectMany" [seq, .lam [p] (fcall "SelectMany" [fb, selection])])
                 else .error (sideErr "SelectMany nested under SelectMany's parameter")
               | .lam [] _ => .error (.internal "IndexError")
@@ -271,7 +271,7 @@ def callWhereCk : Nat → SStack → Nat → List Expr → List String → List 
               | .lam _ _ => do
                 let (conv, c2) ← convoluteCk filter f c1 st
                 let (w, c3) ← simpCk fuel st c2 conv
-                if keyFree st w then simpCk fuel st c3 (makeSelect (fcall "Where" [src, w]) f)
+                if keyFree st (makeSelect (fcall "Where" [src, w]) f) then simpCk fuel st c3 (makeSelect (fcall "Where" [src, w]) f)
                 else .error (sideErr "filter mentions a stack key")
               | _ => .error (.internal "AssertionError"))
            | _ => .error (.internal "IndexError"))
